@@ -436,9 +436,11 @@ func init() {
 		ID: "C14",
 		Explanation: "Decides structural necessary conditions of 'template instantiation preserves meaning': DTX(predicate): the predicate evaluator of conditional alternatives computes or / and / not / equals (all truth assignments of two operands, bound value equal or not). ESCAPE: the per-nonterminal required-flag sets of PropagateLookaheads are not kept in a recycled buffer (a lost 'flag is never provided' diagnostic ends in a process exit). CYCLE/SHARED: instantiating and renumbering token-set expressions terminates on cyclic sets and touches shared nodes once. DTX(expr-equal) as in C13. " +
 			"Not decided: argument propagation and the instantiation work-list themselves.",
-		Rules: []string{"DTX(predicate)", "ESCAPE", "CYCLE", "SHARED", "DTX(expr-equal)"},
+		Rules: []string{"DTX(predicate)", "ESCAPE", "CYCLE", "SHARED", "DTX(expr-equal)", "BOUNDARY(terminals)", "MUSTPASS(conditional-outermost)"},
 		Run: func(c *Ctx) {
 			rulePREDICATE(c)
+			ruleWRAPORDER(c)
+			ruleBOUNDARY(c, "syntax", "compiler", "lalr", "grammar", "gen")
 			ruleESCAPE(c, map[string]bool{"syntax": true})
 			ruleCYCLE(c)
 			ruleSHARED(c)
